@@ -14,7 +14,7 @@
    C01_resolved_when_quiescent_refuted_build_raises). *)
 From AV Require Import Base.Util Model.Producer Model.ProducerCompose Proofs.ProducerC01Spec Proofs.ProducerC01Thm
   Proofs.ProducerC01Compose.
-From AV Require Proofs.ProducerInv Proofs.ProducerProgress.
+From AV Require Proofs.ProducerInv Proofs.ProducerProgress Proofs.ProducerFires.
 
 (* No send fires twice: the ids that received an outcome, in firing order, are pairwise distinct. *)
 Theorem C01_at_most_once : forall c has_t api0 cache0 evs s tr,
@@ -209,6 +209,35 @@ Theorem C01_resolved_within : forall c has_t api0 cache0 evs1 evs2 s1 tr1 s2 tr2
 Proof. exact ProducerProgress.resolved_within. Qed.
 Print Assumptions C01_resolved_within.
 
+(* Every accepted send eventually fires - the batching rules of C19 (a queued send joins a batch at the first tick of
+   the time limit with no batch in flight, or at once when a threshold is met: C19_no_starvation, C19_dispatch_iff)
+   chained with the bounded progress of the batch in flight, as ONE statement.  owed2 c s e: the events the environment
+   owes in state s - what the batch in flight waits for (owed) and, with NOTHING in flight and sends waiting, the tick
+   of the time limit (only when one is configured: the periodic call is running).  count_owed2 counts, along a run,
+   the events that were owed2 in the state they arrived in.  For every honest run, every send x accepted in it and
+   every honest continuation: x has fired, or fewer than 2 * mu_bound c N + 2 owed events have been delivered so far
+   (N = the number of send_messages calls of the whole run: the first mu_bound for the batch in flight when x was
+   queued, the tick, the second for the batch x rides in).  Fairness - the environment delivers what it owes - is a
+   premise on the event list, not proved of any client or reactor. *)
+Theorem C01_send_eventually_fires : forall c has_t api0 cache0 evs1 evs2 s1 tr1 s2 tr2 x,
+  honest (evs1 ++ evs2) -> run c (init_state has_t api0 cache0) evs1 = (s1, tr1) -> run c s1 evs2 = (s2, tr2) ->
+  In x (accepted 0 evs1) ->
+  In (s_id x) (fired (tr1 ++ tr2)) \/
+  ProducerFires.count_owed2 c s1 evs2 < 2 * ProducerProgress.mu_bound c (nids (evs1 ++ evs2)) + 2.
+Proof. exact ProducerFires.send_eventually_fires. Qed.
+Print Assumptions C01_send_eventually_fires.
+
+(* ... and as long as x is held and the producer has not been stopped something IS owed, provided a time limit is
+   configured (has_t): a batch in flight always waits for an event an honest environment can deliver, and with nothing
+   in flight the tick is owed.  WITHOUT a time limit a send queued below the count / byte thresholds waits for further
+   sends - nothing is owed then and nothing is claimed (the code waits too). *)
+Theorem C01_held_send_is_owed : forall c has_t api0 cache0 evs s tr x,
+  honest evs -> run c (init_state has_t api0 cache0) evs = (s, tr) ->
+  In x (accepted 0 evs) -> ~ In (s_id x) (fired tr) -> has_t = true -> stopping s = false ->
+  exists e, ProducerFires.owed2 c s e = true /\ honest_ev e = true.
+Proof. exact ProducerFires.held_send_is_owed. Qed.
+Print Assumptions C01_held_send_is_owed.
+
 (* ---- non-vacuity: concrete runs reaching the situations the theorems speak about ---- *)
 Definition cfg1 (acks mx : Z) := {| c_acks := acks; c_n := 1; c_b := 1; c_max := mx |}.
 Definition st1 := init_state false 1 [(0, (0, true))].
@@ -277,3 +306,16 @@ Example ex_progress_lookup :
   ProducerProgress.count_owed (cfg1 1 2) s1 evs2 = 2 /\ In (OOutcome 0 (OFail 3 0)) (outs_of tr2) /\
   In OBatchDone (outs_of tr2) /\ ph s2 = Idle.
 Proof. vm_compute. repeat split; auto 10. Qed.
+
+(* composite progress: no thresholds, a time limit; two sends wait; the potential of send 1 is 1 + B = 25 while it is
+   queued (an unrelated cancel does not move it), 5 once the tick has put it in a batch (a second tick is not owed),
+   0 when the result arrives: 2 owed events, bound 2 * 24 + 2 = 50 *)
+Example ex_send_fires :
+  let c := {| c_acks := 1; c_n := 0; c_b := 0; c_max := 3 |} in
+  let '(s1, tr1) := run c (init_state true 1 [(0, (0, true))]) [ESend 0 0 1 5; ESend 0 0 1 5] in
+  let evs2 := [ECancel 7; ETick; ETick; EResult (VResp [((0, 0), 0, 42)])] in
+  let '(s2, tr2) := run c s1 evs2 in
+  ph s1 = Idle /\ map s_id (queue s1) = [0; 1] /\ ProducerFires.count_owed2 c s1 evs2 = 2 /\ fired (tr1 ++ tr2) = [0; 1] /\
+  ProducerProgress.mu_bound c 2 = 24 /\
+  map (fun n => ProducerFires.pot c 24 1 (fst (run c s1 (firstn n evs2)))) [0; 1; 2; 3; 4]%nat = [25; 25; 5; 5; 0].
+Proof. vm_compute. repeat split; reflexivity. Qed.
